@@ -194,9 +194,12 @@ class SensitiveWordAnonymizer(object):
     @classmethod
     def _generate_sensitive_word_regex(cls, sensitive_words):
         """Compile and return regex for the specified list of sensitive words."""
-        # Words are literal text, not regexes
+        # Words are literal text, not regexes. Longest words first (ties broken
+        # alphabetically) so the result does not depend on set iteration order
+        # when words overlap (e.g. "sea" and "seattle")
+        ordered_words = sorted(sensitive_words, key=lambda w: (-len(w), w))
         return re.compile(
-            "({})".format("|".join(re.escape(w) for w in sensitive_words)),
+            "({})".format("|".join(re.escape(w) for w in ordered_words)),
             re.IGNORECASE,
         )
 
